@@ -80,6 +80,15 @@ def mkTranscript (exons : List Blk) (st : Strand) (cds : Option (List Blk)) (ple
         pure ⟨e, some d, plen⟩
     | _, _, _, _ => throw .Location     -- empty lists: `CompoundInterval([], [])` refuses
 
+/-- `TranscriptInterval.__init__` with its `cds_frames` argument: one frame per CDS block is demanded
+    (`len(cds_frames) != len(cds_starts)` ⇒ InvalidCDSIntervalError); the frames are then stored with the CDS
+    and NEVER read by any coordinate conversion (amino-acid index included), so they do not enter `Transcript`. -/
+def mkTranscriptF (exons : List Blk) (st : Strand) (cds : Option (List Blk)) (frames : List CDSFrame)
+    (plen : Option Nat) : R Transcript :=
+  match cds with
+  | some cb => if frames.length ≠ cb.length then throw .InvalidCDSInterval else mkTranscript exons st cds plen
+  | none => mkTranscript exons st cds plen
+
 /-- `chunk_relative_location` (`_location`) of a block list: SingleInterval iff exactly one block. -/
 def chunkLocation (l : Loc) : Location := toSingleIfOne l
 
@@ -164,24 +173,37 @@ def cdsLocation (t : Transcript) : R Location := do
   let d ← t.requireCoding
   pure (.compound d)
 
+/-- `_chunk_relative_transcript_start` of a transcript without a chunk:
+    `_chunk_relative_bounded_chromosome_location` is then `_location` itself (no parent, or a chromosome parent onto
+    which the lift is the identity), so this is the transcript position of the first transcript base -/
+def chunkRelativeTranscriptStart (t : Transcript) : R Int := do
+  let firstPos ← r2p (chunkLocation t.exons) 0
+  t.sequencePosToTranscript firstPos
+
 /-- `get_5p_interval` -/
 def get5pInterval (t : Transcript) : R Location := do
   let d ← t.requireCoding
   -- `if self.cds.chunk_relative_location == self.chunk_relative_location: return EmptyLocation()`
   if chunkLocation d = chunkLocation t.exons then pure .empty
   else do
-    let cdsStartOnTranscript ← t.cdsPosToTranscript 0
-    relInterval (chunkLocation t.exons) 0 cdsStartOnTranscript .plus
+    -- `cds_start_on_transcript = self.cds_pos_to_transcript(0) - self._chunk_relative_transcript_start()`
+    let cdsStart ← t.cdsPosToTranscript 0
+    let off ← t.chunkRelativeTranscriptStart
+    -- `utr_end = min(max(cds_start_on_transcript, 0), len(self._location))`
+    let utrEnd : Int := min (max (cdsStart - off) 0) t.exons.len
+    relInterval (chunkLocation t.exons) 0 utrEnd .plus
 
 /-- `get_3p_interval` -/
 def get3pInterval (t : Transcript) : R Location := do
   let d ← t.requireCoding
   if chunkLocation d = chunkLocation t.exons then pure .empty
   else do
-    -- `self.cds_pos_to_transcript(len(self.cds.chunk_relative_location) - 1)`
+    -- `self.cds_pos_to_transcript(len(self.cds) - 1)`
     let cdsInclusiveEnd ← t.cdsPosToTranscript ((d.len : Int) - 1)
-    -- `relative_interval_to_parent_location(cds_inclusive_end_on_transcript + 1, len(self._location), PLUS)`
-    relInterval (chunkLocation t.exons) (cdsInclusiveEnd + 1) t.exons.len .plus
+    let off ← t.chunkRelativeTranscriptStart
+    let utrStart : Int := min (max (cdsInclusiveEnd + 1 - off) 0) t.exons.len
+    -- `relative_interval_to_parent_location(utr_start, len(self._location), PLUS)`
+    relInterval (chunkLocation t.exons) utrStart t.exons.len .plus
 
 end Transcript
 
@@ -274,6 +296,13 @@ def mkChunkTranscript (exons : List Blk) (st : Strand) (cds : Option (List Blk))
         pure ⟨⟨e, some d, none⟩, w, wst, loc, some dl⟩
     | _, _, _, _ => throw .Location
 
+/-- the same with the `cds_frames` argument (see `mkTranscriptF`) -/
+def mkChunkTranscriptF (exons : List Blk) (st : Strand) (cds : Option (List Blk)) (frames : List CDSFrame)
+    (w : Blk) (wst : Strand) : R ChunkTranscript :=
+  match cds with
+  | some cb => if frames.length ≠ cb.length then throw .InvalidCDSInterval else mkChunkTranscript exons st cds w wst
+  | none => mkChunkTranscript exons st cds w wst
+
 namespace ChunkTranscript
 
 /-- `SingleInterval(s, e, strand, parent=loc.parent)` for a chunk-relative location `loc`: the parent is the chunk
@@ -319,23 +348,38 @@ def chunkRelativeIntervalToCds (c : ChunkTranscript) (s e : Int) (st : Strand) :
 def cdsIntervalToChunkRelative (c : ChunkTranscript) (rs re : Int) (rst : Strand) : R Location := do
   let l ← c.requireCodingLocation; relInterval l rs re rst
 
-/-- `get_5p_interval` of a chunk-built transcript: the transcript index of the CDS start (an index into the
-    WHOLE transcript) is applied to the chunk-relative location (the part inside the chunk) -/
-def get5pInterval (c : ChunkTranscript) : R Location := do
-  let dl ← c.requireCodingLocation
-  if dl = c.location then pure .empty
-  else do
-    let cdsStartOnTranscript ← c.base.cdsPosToTranscript 0
-    relInterval c.location 0 cdsStartOnTranscript .plus
+/-- `_chunk_relative_transcript_start`: the transcript position of the first base of `chunk_relative_location`.
+    `_chunk_relative_bounded_chromosome_location` = the chunk-relative location lifted back to the chromosome
+    (`lift_over_to_first_ancestor_of_type(CHROMOSOME)`, one level through the chunk's placement), or the whole
+    chromosome location when nothing lies on the chunk -/
+def chunkRelativeTranscriptStart (c : ChunkTranscript) : R Int := do
+  let bounded ← (if c.location == .empty then pure (Location.compound c.base.exons)
+                 else liftOnce c.location (.single c.w c.wst))
+  let firstPos ← r2p bounded 0
+  c.base.sequencePosToTranscript firstPos
 
-/-- `get_3p_interval`: `len(self.cds.chunk_relative_location)` is the length of the in-chunk part of the CDS,
-    `len(self._location)` the length of the in-chunk part of the transcript -/
-def get3pInterval (c : ChunkTranscript) : R Location := do
+/-- `get_5p_interval` of a chunk-built transcript (the result is chunk-relative) -/
+def get5pInterval (c : ChunkTranscript) : R Location := do
+  let _ ← c.base.requireCoding
   let dl ← c.requireCodingLocation
   if dl = c.location then pure .empty
   else do
-    let cdsInclusiveEnd ← c.base.cdsPosToTranscript ((locLen dl : Int) - 1)
-    relInterval c.location (cdsInclusiveEnd + 1) (locLen c.location) .plus
+    let cdsStart ← c.base.cdsPosToTranscript 0
+    let off ← c.chunkRelativeTranscriptStart
+    let utrEnd : Int := min (max (cdsStart - off) 0) (locLen c.location)
+    relInterval c.location 0 utrEnd .plus
+
+/-- `get_3p_interval`: `len(self.cds)` is the length of the WHOLE CDS, `len(self._location)` the length of the
+    in-chunk part of the transcript -/
+def get3pInterval (c : ChunkTranscript) : R Location := do
+  let d ← c.base.requireCoding
+  let dl ← c.requireCodingLocation
+  if dl = c.location then pure .empty
+  else do
+    let cdsInclusiveEnd ← c.base.cdsPosToTranscript ((d.len : Int) - 1)
+    let off ← c.chunkRelativeTranscriptStart
+    let utrStart : Int := min (max (cdsInclusiveEnd + 1 - off) 0) (locLen c.location)
+    relInterval c.location utrStart (locLen c.location) .plus
 
 end ChunkTranscript
 end BioCantor.Model
